@@ -69,6 +69,71 @@ def roundtrip_problem(c, d, out):
     return None
 
 
+def subset_problem(doc, out, path=""):
+    """every key of the document is in the re-marshalled value with the same value (objects key-wise, the rest exactly)"""
+    if isinstance(doc, dict) and isinstance(out, dict):
+        for k, v in doc.items():
+            if k not in out:
+                return "%s/%s is missing" % (path, k)
+            pb = subset_problem(v, out[k], path + "/" + k)
+            if pb:
+                return pb
+        return None
+    if isinstance(doc, list) and isinstance(out, list) and len(doc) == len(out):
+        for i, (a, b) in enumerate(zip(doc, out)):
+            pb = subset_problem(a, b, "%s/%d" % (path, i))
+            if pb:
+                return pb
+        return None
+    return None if json_eq(doc, out) else "%s: %s came back as %s" % (path, json.dumps(doc), json.dumps(out))
+
+
+def cross_file_cases():
+    """one schema file that uses, at two positions, two definitions of the SAME name living in different files (its own `Address` and common.json's
+    `Address`, which give the key `zip` different types): each position decodes by its own definition.  Positions: plain reference, allOf and anyOf
+    with an inline branch, array items, map values; both orders of the two property names (generation visits properties in name order)."""
+    from vlib.kitchen import Case
+    # (every definition has a check of its own: an anyOf branch given by a reference to a type without checks is the recorded finding C01-anyof-ref-without-validators)
+    local = {"type": "object", "properties": {"street": {"type": "string"}, "zip": {"type": "integer"}}, "required": ["zip"]}
+    remote = {"type": "object", "properties": {"street": {"type": "string"}, "zip": {"type": "string"}, "country": {"type": "string"}}, "required": ["zip"]}
+    common = {"$id": "http://x/common", "type": "object", "$defs": {"Address": remote}, "properties": {"hq": {"$ref": "#/$defs/Address"}}}
+    third = {"$id": "http://x/third", "type": "object", "definitions": {"Address": {"type": "object", "properties": {"zip": {"type": "boolean"}}, "required": ["zip"]}}}
+    lv, rv, tv = {"street": "s", "zip": 5}, {"street": "t", "zip": "Z1", "country": "c"}, {"zip": True}
+
+    def pos(kind, ref, extra):
+        inl = {"type": "object", "properties": {extra: {"type": "string"}}}
+        if kind == "ref":
+            return {"$ref": ref}, lambda v: v
+        if kind in ("allOf", "anyOf"):
+            return {kind: [{"$ref": ref}, inl]}, lambda v: dict(v, **{extra: "e"})
+        if kind == "items":
+            return {"type": "array", "items": {"$ref": ref}}, lambda v: [v, v]
+        if kind == "items-allOf":
+            return {"type": "array", "items": {"allOf": [{"$ref": ref}, inl]}}, lambda v: [dict(v, **{extra: "e"})]
+        return {"type": "object", "additionalProperties": {"$ref": ref}}, lambda v: {"k": v}
+    out = []
+    kinds = ["ref", "allOf", "anyOf", "items", "items-allOf", "map"]
+    n = 0
+    for k1 in kinds:
+        for k2 in kinds:
+            if "allOf" not in (k1, k2) and "anyOf" not in (k1, k2) and "items-allOf" not in (k1, k2) and k1 != k2:
+                continue
+            for order in (0, 1):
+                names = ("billing", "shipping") if order == 0 else ("shipping", "billing")      # local position first / remote position first
+                s1, w1 = pos(k1, "#/$defs/Address", "vat")
+                s2, w2 = pos(k2, "common.json#/$defs/Address", "notes")
+                s3, w3 = pos(k2 if k2 != "map" else "ref", "third.json#/definitions/Address", "more")
+                root = {"$id": "http://x/order", "type": "object", "$defs": {"Address": local}, "properties": {names[0]: s1, names[1]: s2, "zz": s3}}
+                doc = {names[0]: w1(lv), names[1]: w2(rv), "zz": w3(tv)}
+                docs = [{"doc": doc, "cls": "valid", "path": (), "expect": "ACC"},
+                        {"doc": {names[0]: w1(lv)}, "cls": "valid", "path": (), "expect": "ACC"}, {"doc": {names[1]: w2(rv)}, "cls": "valid", "path": (), "expect": "ACC"}]
+                out.append(Case("c02cf%d" % n, root, docs, fam="cross-file-same-definition-name/%s+%s" % (k1, k2),
+                                extra_files={"common.json": json.dumps(common), "third.json": json.dumps(third)}, argv=["s.json"],
+                                mappings=[("http://x/order", "Root"), ("http://x/common", "Common"), ("http://x/third", "Third")], no_model=True))
+                n += 1
+    return out
+
+
 def run(ctx):
     ctx.proof_step(PROPS_FILE)
     n = 60 if ctx.tier == "quick" else 800
@@ -93,8 +158,32 @@ def run(ctx):
             docs.append({"doc": {"r": g}, "cls": "valid", "path": ()})
             docs.append({"doc": {"r": goods[0], "o": g, "l": [g, goods[-1]]}, "cls": "valid", "path": ()})
         cases.append(Case("c02f%d" % fi, root, docs, fam="formats"))
-    run_cases(ctx, cases, "c02")
+    cf = cross_file_cases()
+    run_cases(ctx, cases + cf, "c02")
     nv = evaluate(ctx, cases, CLASSES, {k: "valid" for k in CLASSES}, "valid documents")
+    ncf = 0
+    for c in cf:
+        if not c.build_ok:
+            if ncf < 3:
+                ctx.violation("oracle", dict(c.replay_obj(), gen_err=c.gen_err, build_err=c.build_err), "%s: generation failed or does not build: %s" % (c.fam, (c.gen_err or c.build_err)[:300]))
+            ncf += 1
+            continue
+        ctx.cov["programs"] += 1
+        for di, d in enumerate(c.docs):
+            o = d.get("obs") or {}
+            ctx.count({"f": c.fam, "s": c.schema, "d": d["doc"]}, True, "cross-file-same-definition-name")
+            pb = None
+            if o.get("v") != "ACC":
+                pb = "valid document is %s: %s" % (o.get("v"), o.get("err", "")[:200])
+            else:
+                try:
+                    pb = subset_problem(d["doc"], json.loads(o["out"]))
+                except Exception:
+                    pb = "the decoded value cannot be marshalled back"
+            if pb and ncf < 3:
+                ctx.violation("oracle", c.replay_obj(di), "%s: document %s: %s (re-marshalled: %s)" % (c.fam, json.dumps(d["doc"])[:300], pb, o.get("out", "")[:300]))
+                ncf += 1
+                break
     for c in cases:
         if nv >= 6 or not c.build_ok:
             continue
